@@ -38,10 +38,10 @@ type In struct {
 }
 
 func gen(f vh.Flags, r *vrand.R, emit func(In)) {
-	n := f.N(10, 300)
+	n := f.N(15, 400)
 	for k := 0; k < n; k++ {
 		in := In{Writers: r.Range(2, 3), Family: r.Range(2, 3), Batches: r.Range(8, 25), Searchers: r.Range(1, 3),
-			Holders: r.Range(1, 2), Merges: r.Range(0, 4), DelaySeed: r.U64(), DelayUS: vrand.Pick(r, []int{0, 50, 300, 1500})}
+			Holders: r.Range(1, 2), Merges: r.Range(2, 10), DelaySeed: r.U64(), DelayUS: vrand.Pick(r, []int{50, 300, 1500})}
 		switch k % 5 {
 		case 4:
 			in.Layout = sw.Layout{Config: vrand.Pick(r, []string{"udc-gtreap", "udc-moss", "udc-boltdb"})}
@@ -92,6 +92,22 @@ func exec(in In) vh.Result {
 				dmu.Lock()
 				d := dr.Intn(in.DelayUS)
 				skip := dr.Chance(2, 3)
+				// widen the windows in which a merge is in flight or a batch has computed its
+				// optimistic obsoletions but has not been introduced yet (no lock is held at these points)
+				name := ev.Kind
+				if ev.Kind == "point" {
+					name = ev.Name
+				}
+				switch name {
+				case "merge_start", "memmerge_written", "filemerge_written":
+					if dr.Chance(1, 2) {
+						d, skip = 2000+dr.Intn(8000), false
+					}
+				case "batch_send":
+					if dr.Chance(1, 4) {
+						d, skip = 500+dr.Intn(4000), false
+					}
+				}
 				dmu.Unlock()
 				if !skip {
 					time.Sleep(time.Duration(d) * time.Microsecond)
@@ -100,7 +116,12 @@ func exec(in In) vh.Result {
 		}
 	}
 	W, F := in.Writers, in.Family
-	nids := W * F
+	// besides the W observed families there is a "churn" family of 6 documents that one extra
+	// writer updates or deletes one or two at a time: its segments carry PARTIAL deletions (the
+	// observed families always obsolete a whole segment at once), which is what the deleted-since
+	// bookkeeping of merges has to get right.  It is judged through the event trace only.
+	const churn = 6
+	nids := W*F + churn
 	acked := make([]int64, W)
 	submitted := make([]int64, W)
 	var tgMu sync.Mutex
@@ -150,6 +171,35 @@ func exec(in In) vh.Result {
 			}
 		}(w)
 	}
+	if trace {
+		wg.Add(1)
+		go func() {
+			defer wg.Done()
+			cr := vrand.New(in.DelaySeed ^ 0x5bd1e995)
+			for j := int64(1); j <= int64(2*in.Batches); j++ {
+				var ops []sw.Op
+				for k := cr.Range(1, 2); k > 0; k-- {
+					id := W*F + cr.Intn(churn)
+					if cr.Chance(1, 4) {
+						ops = append(ops, sw.Op{Kind: "delete", ID: id})
+					} else {
+						ops = append(ops, sw.Op{Kind: "index", ID: id, Ver: 1000 + j})
+					}
+				}
+				tgMu.Lock()
+				b, _, err := tg.Build(idx, ops, true)
+				tgMu.Unlock()
+				if err != nil {
+					fail(err)
+					return
+				}
+				if err := idx.Batch(b); err != nil {
+					fail(err)
+					return
+				}
+			}
+		}()
+	}
 	// searchers: one Search = one snapshot
 	var rg sync.WaitGroup
 	for s := 0; s < in.Searchers; s++ {
@@ -181,7 +231,7 @@ func exec(in In) vh.Result {
 					if s, ok := h.Fields["v"].(string); ok {
 						v, _ = strconv.ParseInt(s, 10, 64)
 					}
-					if i >= 0 && i < nids {
+					if i >= 0 && i < W*F {
 						seen[i/F][i%F] = &v
 					}
 				}
@@ -303,7 +353,7 @@ func exec(in In) vh.Result {
 				select {
 				case <-done:
 					return
-				case <-time.After(3 * time.Millisecond):
+				case <-time.After(2 * time.Millisecond):
 				}
 				sw.ForceMerge(idx)
 			}
